@@ -741,17 +741,13 @@ Section AsmFaithful.
     - destruct (fst (inner s cur)); try reflexivity. apply union_one_entry.
   Qed.
 
-  Lemma asm_union_kinded_unfold : forall n ms s cur nul d, d <> DNull ->
+  Lemma asm_union_kinded_unfold : forall n ms s cur nul d, d <> DNull -> shape_is_ptr s = false ->
     asm q LRepr n32 (TUnion n ms URKinded) s cur nul d =
     match fst (inner s cur) with
-    | SStruct _ ss =>
-        match s with
-        | SPtr _ => Err PReflect
-        | _ => with_member false (kind_name d) (member_body LRepr ss d) (Err XWrongKind) ms O
-        end
+    | SStruct _ ss => with_member false (kind_name d) (member_body LRepr ss d) (Err XWrongKind) ms O
     | _ => Err PReflect
     end.
-  Proof. intros. destruct d; try congruence; reflexivity. Qed.
+  Proof. intros n ms s cur nul d Hd Hs. destruct d; try congruence; destruct s; try discriminate; reflexivity. Qed.
 
   Lemma find_disc_some : forall k ms i pre m post,
     ms = pre ++ m :: post -> bytes_eqb k (fst m) = true -> find_member_by_disc k ms i <> None.
@@ -931,8 +927,6 @@ Section AsmFaithful.
         eexists. split; [reflexivity|].
         apply put_built; [assumption | rewrite Es; unfold union_set in *; exact Hok |].
         unfold union_set in *. cbn [denote unptr]. 
-        assert (Hw : (fun (m0 : bytes * sty) (d : dm) => match r with URKeyed | URKinded => DMap [(sty_name (snd m0), d)] end)
-                     = (fun m0 d => DMap [(sty_name (snd m0), d)])) by (destruct r; reflexivity).
         apply bytes_eqb_eq in Hk. unfold mkey in Hk. subst k.
         destruct r; exact Hden.
       + destruct r.
@@ -956,16 +950,16 @@ Section AsmFaithful.
                destruct (nth_shape i ss); reflexivity). }
           destruct (member_asm LRepr false (kind_name d) ms ss d (fun m d => d) (Err XWrongKind) H Hb Hf')
             as [pre [mb [post [x [Hms [Hk [Hrun [Hok Hden]]]]]]]].
-          rewrite asm_union_kinded_unfold by assumption. rewrite Hinner.
           assert (Hs : s = SStruct sn ss).
           { simpl in Hl. destruct s; simpl in Es; try discriminate; try exact Es.
             simpl in Hl. rewrite andb_false_r in Hl. discriminate. }
-          rewrite Hs. rewrite Hrun.
+          rewrite asm_union_kinded_unfold; [|assumption|rewrite Hs; reflexivity]. rewrite Hinner. rewrite Hrun.
           eexists. split; [reflexivity|].
-          unfold built. rewrite <- Hs at 1. 
+          unfold built.
           split.
-          -- rewrite Hs. unfold union_set in *. exact Hok.
+          -- rewrite Hs. unfold ok_loc, union_set in *. exact Hok.
           -- unfold union_set in *. cbn [denote unptr]. exact Hden.
+        * discriminate Hkwf.
     - (* enum *)
       destruct (deref1 s) eqn:Es; simpl in Hb; try discriminate.
       apply andb_prop in Hb. destruct Hb as [Hb Hsmall].
